@@ -1,3 +1,134 @@
 package main
 
-func main() {}
+// vrewrite applies a check's redirect table (callee -> stub) to the source of a package, mechanically,
+// so that the natively compiled replay runs the same code with the same environment stubs as the engine did.
+// Input: JSON {dir, out, redirect:[{callee, stub, only_from}]}; output (stdout): JSON map original file -> rewritten file.
+
+import (
+	"bytes"
+	"encoding/json"
+	"fmt"
+	"go/ast"
+	"go/printer"
+	"go/token"
+	"go/types"
+	"os"
+	"path/filepath"
+
+	"golang.org/x/tools/go/packages"
+)
+
+type redirect struct {
+	Callee   string `json:"callee"`
+	Stub     string `json:"stub"`
+	OnlyFrom string `json:"only_from"`
+}
+
+type config struct {
+	Dir      string     `json:"dir"`
+	Out      string     `json:"out"`
+	Redirect []redirect `json:"redirect"`
+}
+
+func main() {
+	data, err := os.ReadFile(os.Args[1])
+	if err != nil {
+		fmt.Println(err)
+		os.Exit(1)
+	}
+	var cfg config
+	if err := json.Unmarshal(data, &cfg); err != nil {
+		fmt.Println(err)
+		os.Exit(1)
+	}
+	pcfg := &packages.Config{
+		Mode: packages.NeedName | packages.NeedFiles | packages.NeedCompiledGoFiles | packages.NeedSyntax | packages.NeedTypes | packages.NeedTypesInfo | packages.NeedImports | packages.NeedDeps,
+		Dir:  cfg.Dir,
+		Env:  append(os.Environ(), "GOFLAGS=-mod=mod", "GOPROXY=off", "GOSUMDB=off", "GOTOOLCHAIN=local"),
+	}
+	pkgs, err := packages.Load(pcfg, ".")
+	if err != nil || len(pkgs) == 0 {
+		fmt.Println("load:", err)
+		os.Exit(1)
+	}
+	pkg := pkgs[0]
+	byCallee := map[string][]redirect{}
+	for _, r := range cfg.Redirect {
+		byCallee[r.Callee] = append(byCallee[r.Callee], r)
+	}
+	result := map[string]string{}
+	for i, f := range pkg.Syntax {
+		fname := pkg.CompiledGoFiles[i]
+		changed := false
+		var keep []string
+		for _, decl := range f.Decls {
+			fd, ok := decl.(*ast.FuncDecl)
+			if !ok || fd.Body == nil {
+				continue
+			}
+			fnName := fd.Name.Name
+			ast.Inspect(fd.Body, func(n ast.Node) bool {
+				call, ok := n.(*ast.CallExpr)
+				if !ok {
+					return true
+				}
+				var obj types.Object
+				var recv ast.Expr
+				switch fun := call.Fun.(type) {
+				case *ast.SelectorExpr:
+					obj = pkg.TypesInfo.Uses[fun.Sel]
+					if sel, ok := pkg.TypesInfo.Selections[fun]; ok && sel.Kind() == types.MethodVal {
+						recv = fun.X
+					}
+				case *ast.Ident:
+					obj = pkg.TypesInfo.Uses[fun]
+				}
+				fo, ok := obj.(*types.Func)
+				if !ok {
+					return true
+				}
+				full := fo.FullName()
+				for _, r := range byCallee[full] {
+					if r.OnlyFrom != "" && r.OnlyFrom != fnName {
+						continue
+					}
+					if recv != nil {
+						call.Args = append([]ast.Expr{recv}, call.Args...)
+					} else if se, ok := call.Fun.(*ast.SelectorExpr); ok {
+						if id, ok := se.X.(*ast.Ident); ok {
+							keep = append(keep, id.Name+"."+se.Sel.Name)
+						}
+					}
+					call.Fun = ast.NewIdent(r.Stub)
+					changed = true
+					break
+				}
+				return true
+			})
+		}
+		if !changed {
+			continue
+		}
+		var buf bytes.Buffer
+		if err := printer.Fprint(&buf, pkg.Fset, f); err != nil {
+			fmt.Println("print:", err)
+			os.Exit(1)
+		}
+		seen := map[string]bool{}
+		for _, k := range keep {
+			if !seen[k] {
+				seen[k] = true
+				fmt.Fprintf(&buf, "\nvar _ = %s\n", k)
+			}
+		}
+		out := filepath.Join(cfg.Out, "rw_"+filepath.Base(fname))
+		if err := os.WriteFile(out, buf.Bytes(), 0o644); err != nil {
+			fmt.Println(err)
+			os.Exit(1)
+		}
+		result[fname] = out
+	}
+	b, _ := json.Marshal(result)
+	fmt.Println(string(b))
+	_ = token.NoPos
+}
